@@ -1,5 +1,6 @@
 import SsoSpec.C02
 import SsoSpec.C11
+import SsoSpec.C14
 import SsoSpec.C15
 import SsoSpec.C16
 import SsoSpec.C17
